@@ -8,6 +8,8 @@ Lean specification `Feasible` (decidable form `checkPlacement`) evaluated on eve
 placer returns - including the opaque C annealing kernel."""
 import random as _random
 from harness import c02_names
+from harness import c02_variants
+from harness import common
 
 CLAIM = dict(
     text=("Machine-checked proof (Lean 4) over ALL vertex/resource dictionaries, machines (dead chips, resource "
@@ -83,6 +85,8 @@ DOCUMENTED = ("InsufficientResourceError", "InvalidConstraintError")
 
 def gen_problem(rng, big=False, unit=False, ood=False):
     R = rng.choice([1, 1, 2, 3])
+    if not unit and not ood and rng.random() < 0.03:
+        R = 0                                   # a machine without any resource type
     w = rng.choice([1, 1, 2, 2, 3, 3, 4, 5, 6] + ([8, 10] if big else []))
     h = rng.choice([1, 2, 2, 3, 3, 4, 5] + ([7, 10] if big else []))
     n = rng.choice([0, 1, 2, 3, 4, 5, 6, 8, 10, 12, 15] + ([20, 30, 40] if big else []))
@@ -96,7 +100,7 @@ def gen_problem(rng, big=False, unit=False, ood=False):
     working = [c for c in allchips if c not in dead]
     tags = []
     # vertices
-    r0 = rng.randrange(R)
+    r0 = rng.randrange(max(R, 1))
     vr = []
     for v in range(n):
         if unit:
@@ -118,7 +122,7 @@ def gen_problem(rng, big=False, unit=False, ood=False):
     for i in range(R):
         D = sum(d[i] for _, d, _ in vr)
         res.append(max(0, int(-(-D * f // W)) + rng.choice([0, 0, 0, 1, 1, 2, 3])))
-    capmax = max(res)
+    capmax = max(res + [0])
     exc = []
     for c in working:
         if rng.random() < 0.25:
@@ -170,7 +174,7 @@ def gen_problem(rng, big=False, unit=False, ood=False):
                     c = (w + rng.randrange(2), rng.randrange(h + 1))
                 pinned[g] = c
             cs.append({"t": "loc", "v": v, "c": list(c)})
-    for _ in range(rng.choice([0, 0, 1, 2])):
+    for _ in range(rng.choice([0, 0, 1, 2]) if R else 0):
         at = None
         if rng.random() < 0.5 and working:
             at = list(rng.choice(working))
@@ -214,7 +218,7 @@ def gen_problem(rng, big=False, unit=False, ood=False):
         co.insert(rng.randrange(len(co) + 1), tuple(e))
     # a good share of problems that cannot be placed at all, so that every placer's failure paths run (with
     # vertices named by arbitrary objects): the only acceptable outcomes remain the two documented errors
-    if n and not unit and not ood and rng.random() < 0.22:
+    if n and R and not unit and not ood and rng.random() < 0.22:
         twist = rng.choice(["too-few", "too-few", "oversized", "oversized", "group"])
         if twist == "too-few":
             k = rng.choice([2, 3, 100])
@@ -245,6 +249,7 @@ def gen_problem(rng, big=False, unit=False, ood=False):
     if R < 3:
         prob["foreign_zero"] = [v for v, d, _ in vr if not any(d) and rng.random() < 0.3]
     c02_names.draw(rng, prob)
+    c02_variants.draw(rng, prob)
     prob["vo"] = vo
     prob["co"] = [list(c) for c in co]
     prob["seeds"] = [rng.randrange(2 ** 30) for _ in range(4)]
@@ -335,45 +340,70 @@ def build(prob):
     import collections
     RES = resources(prob)
     nm = c02_names.Namer(prob)      # vertex index -> the object naming it (see c02_names)
+    var = prob.get("var") or {}
+    K = var.get("scale", 1)         # every resource quantity is multiplied by K (see c02_variants)
+    kinds = c02_variants.Kinds(var.get("containers", 0))
+    cls = c02_variants.classes() if kinds.seed else None
     R = len(prob["res"])
-    dr = lambda l: collections.OrderedDict((RES[i], l[i]) for i in range(R))
+    RD = kinds.pick("resdict", ["odict", "dict", "mydict"])
+
+    def mk(pairs):
+        pairs = list(pairs)
+        if RD == "odict":
+            return collections.OrderedDict(pairs)
+        return dict(pairs) if RD == "dict" else cls["dict"](pairs)
+    dr = lambda l: mk((RES[i], l[i] * K) for i in range(R))
     # the key order of a resource dictionary carries no meaning: exceptions (and vertex demands) are
     # written in rotated key orders so that code relying on positional agreement is exposed
     def dr_rot(l, k):
         idx = [(i + k) % R for i in range(R)]
-        return collections.OrderedDict((RES[i], l[i]) for i in idx)
+        return mk((RES[i], l[i] * K) for i in idx)
     from rig.links import Links
-    machine = Machine(prob["w"], prob["h"], chip_resources=dr(prob["res"]),
-                      chip_resource_exceptions={tuple(c): dr_rot(r, c[0] + c[1] + 1) for c, r in prob["exc"]},
-                      dead_chips={tuple(c) for c in prob["dead"]},
-                      dead_links={(x, y, Links(l)) for x, y, l in prob.get("dead_links", [])})
-    vr = collections.OrderedDict()
+    M = cls["Machine"] if kinds.pick("machine", [0, 1]) else Machine
+    machine = M(prob["w"], prob["h"], chip_resources=dr(prob["res"]),
+                chip_resource_exceptions={tuple(c): dr_rot(r, c[0] + c[1] + 1) for c, r in prob["exc"]},
+                dead_chips={tuple(c) for c in prob["dead"]},
+                dead_links={(x, y, Links(l)) for x, y, l in prob.get("dead_links", [])})
+    VR = kinds.pick("vr", ["odict", "dict", "mydict", "myodict"])
+    vr = {"odict": collections.OrderedDict, "dict": dict}[VR]() if VR in ("odict", "dict") else \
+        cls["dict" if VR == "mydict" else "odict"]()
     fz = set(prob.get("foreign_zero", []))
     for v, d, present in prob["vr"]:
-        rot = v % R
-        vr[nm.obj(v)] = {RES[i]: d[i] for i in [(j + rot) % R for j in range(R)] if present[i]}
+        rot = v % R if R else 0
+        vr[nm.obj(v)] = {RES[i]: d[i] * K for i in [(j + rot) % R for j in range(R)] if present[i]}
         if v in fz and R < len(RES):
             vr[nm.obj(v)][RES[R]] = 0           # names only a resource the machine lacks, and needs none of it
-    nets = [Net(nm.obj(s), [nm.obj(x) for x in k], wt) for s, k, wt in prob["nets"]]
-    cs = []
-    for c in prob["cs"]:
-        if c["t"] == "loc":
-            cs.append(LocationConstraint(nm.obj(c["v"]), tuple(c["c"])))
-        elif c["t"] == "same":
-            cs.append(SameChipConstraint([nm.obj(v) for v in c["vs"]]))
-        elif c["t"] == "res":
-            cs.append(ReserveResourceConstraint(RES[c["r"]], slice(3, 3 + c["amt"]),
-                                                None if c["c"] is None else tuple(c["c"])))
-        elif c["t"] == "ep":
-            cs.append(RouteEndpointConstraint(nm.obj(c["v"]), Routes.north))
+    N = cls["Net"] if kinds.pick("net", [0, 1]) else Net
+    nets = []
+    for j, (s_, k, wt) in enumerate(prob["nets"]):
+        if len(k) == 1 and kinds.pick("sink%d" % j, [0, 0, 1]):
+            nets.append(N(nm.obj(s_), nm.obj(k[0]), wt))       # "sinks : list or vertex"
         else:
-            cs.append(AlignResourceConstraint(RES[0], 4))
+            nets.append(N(nm.obj(s_), [nm.obj(x) for x in k], wt))
+    sub = lambda t, base: cls[t] if kinds.pick("cs-" + t, [0, 1]) else base
+    cs = []
+    for j, c in enumerate(prob["cs"]):
+        if c["t"] == "loc":
+            cs.append(sub("loc", LocationConstraint)(nm.obj(c["v"]), tuple(c["c"])))
+        elif c["t"] == "same":
+            vs = [nm.obj(v) for v in c["vs"]]
+            cs.append(sub("same", SameChipConstraint)(tuple(vs) if kinds.pick("same%d" % j, [0, 1]) else vs))
+        elif c["t"] == "res":
+            cs.append(sub("res", ReserveResourceConstraint)(RES[c["r"]], slice(3, 3 + c["amt"] * K),
+                                                            None if c["c"] is None else tuple(c["c"])))
+        elif c["t"] == "ep":
+            cs.append(sub("ep", RouteEndpointConstraint)(nm.obj(c["v"]), Routes.north))
+        else:
+            cs.append(sub("align", AlignResourceConstraint)(RES[0], 4))
     return vr, nets, machine, cs
 
 
 def lean_problem(prob):
-    return {"w": prob["w"], "h": prob["h"], "res": prob["res"], "exc": prob["exc"], "dead": prob["dead"],
-            "vr": [[v, d] for v, d, _ in prob["vr"]], "cs": prob["cs"]}
+    K = c02_variants.scale_of(prob)
+    sc = lambda l: [x * K for x in l]
+    return {"w": prob["w"], "h": prob["h"], "res": sc(prob["res"]), "exc": [[c, sc(r)] for c, r in prob["exc"]],
+            "dead": prob["dead"], "vr": [[v, sc(d)] for v, d, _ in prob["vr"]],
+            "cs": [dict(c, amt=c["amt"] * K) if c["t"] == "res" else c for c in prob["cs"]]}
 
 
 class RecRandom(object):
@@ -411,16 +441,42 @@ class RecRandom(object):
         return self.inner.getrandbits(k)
 
 
-def outcome(fn):
-    """run a placer; -> {"ok": placement dict} | {"err": name}"""
+_HANGS = [0]
+
+
+def outcome(fn, limit=None):
+    """run a placer; -> {"ok": placement dict} | {"err": name}.  A call that is still running after `limit`
+    seconds of CPU time (default 10 s - a call takes milliseconds; at most 2 s once that has happened 4 times in
+    this run, 0.5 s after 12 times) is recorded as {"err": "DidNotReturn"}"""
+    lim = limit or 10
+    if _HANGS[0] >= 4:              # after a few hangs the run is kept short
+        lim = min(lim, 2 if _HANGS[0] < 12 else 0.5)
     try:
-        return {"ok": fn()}
+        with common.cpu_limit(lim):
+            return {"ok": fn()}
+    except common.ImplHang as e:
+        _HANGS[0] += 1
+        return {"err": "DidNotReturn", "msg": str(e)}
     except Exception as e:      # noqa - every exception type is part of the observation
         try:
             msg = str(e)[:200]
         except Exception:       # noqa - an exception whose text cannot be rendered is still identified by its type
             msg = "<message not printable>"
         return {"err": type(e).__name__, "msg": msg}
+
+
+# the models of these placers are total functions proved never to run out of fuel (seqPlace_terminates; randLoop and
+# the constraint handling are structurally recursive): an implementation call that does not return is a violation.
+# The temperature schedule of the annealer is not modelled: there it is a broken correspondence.
+TERMINATING = ("sequential", "sequential-custom", "breadth_first", "hilbert", "rcm", "rand")
+
+
+def did_not_return(ctx, name, impl, case):
+    what = "%s did not return: %s" % (name, impl.get("msg"))
+    if name in TERMINATING:
+        ctx.violation("did-not-return", what + " (the model of this placer terminates on every input)", case)
+    else:
+        ctx.mismatch("c02.did-not-return", what, case)
 
 
 def enc_vertex(v, merged=None):
@@ -467,9 +523,12 @@ def run_placers(prob):
     from rig.place_and_route.place.sa import python_kernel
     base = lean_problem(prob)
     runs = []
+    call = c02_variants.Kinds((prob.get("var") or {}).get("calling", 0))   # calling conventions of this problem
+    conv = []
 
     def add(name, impl, req, **extra):
-        runs.append(dict(placer=name, impl=impl, req=req, **extra))
+        runs.append(dict(placer=name, impl=impl, req=req, conventions=list(conv), **extra))
+        del conv[:]
 
     # sequential, default orders
     vr, nets, machine, cs = build(prob)
@@ -479,9 +538,17 @@ def run_placers(prob):
     vr, nets, machine, cs = build(prob)
     co = [tuple(c) for c in prob["co"]]
     keys = list(vr)
-    add("sequential-custom", outcome(lambda: sequential.place(vr, nets, machine, cs, [keys[v] for v in prob["vo"]],
-                                                              iter(co))),
-        dict(base, op="seq", vo=prob["vo"], co=prob["co"]))
+    k1, vo_arg = c02_variants.vertex_order(call, "seq-vo", [keys[v] for v in prob["vo"]])
+    k2, co_arg = c02_variants.chip_order(call, "seq-co", co)
+    conv.extend(["vertex_order:" + k1, "chip_order:" + k2])
+    if call.pick("seq-kw", [0, 1]):
+        conv.append("keyword")
+        add("sequential-custom", outcome(lambda: sequential.place(vr, nets, machine, cs, chip_order=co_arg,
+                                                                  vertex_order=vo_arg)),
+            dict(base, op="seq", vo=prob["vo"], co=prob["co"]))
+    else:
+        add("sequential-custom", outcome(lambda: sequential.place(vr, nets, machine, cs, vo_arg, co_arg)),
+            dict(base, op="seq", vo=prob["vo"], co=prob["co"]))
 
     # wrappers: capture what they hand to the sequential placer
     def wrapped(mod, call):
@@ -504,7 +571,15 @@ def run_placers(prob):
                           ("hilbert", hilbert, {"breadth_first": prob["hilbert_bf"]}),
                           ("rcm", rcm, {})):
         vr, nets, machine, cs = build(prob)
-        out, cap = wrapped(mod, lambda: mod.place(vr, nets, machine, cs, **kw))
+        if name == "breadth_first" and call.pick("bf-co", [0, 0, 1]):
+            k2, co_arg = c02_variants.chip_order(call, "bf-co-kind", co)
+            kw = {"chip_order": co_arg}
+            conv.append("chip_order:" + k2)
+        if name == "hilbert" and call.pick("hil-pos", [0, 1]):
+            conv.append("positional")
+            out, cap = wrapped(mod, lambda: mod.place(vr, nets, machine, cs, prob["hilbert_bf"]))
+        else:
+            out, cap = wrapped(mod, lambda: mod.place(vr, nets, machine, cs, **kw))
         req = None
         if len(cap) == 1:
             vo, co_ = cap[0]
@@ -518,7 +593,15 @@ def run_placers(prob):
     # random placer
     vr, nets, machine, cs = build(prob)
     rr = RecRandom(prob["seeds"][0])
-    out = outcome(lambda: rand.place(vr, nets, machine, cs, rr))
+    how = call.pick("rand", ["positional", "keyword", "default-random"])
+    conv.append("random:" + how)
+    if how == "positional":
+        out = outcome(lambda: rand.place(vr, nets, machine, cs, rr))
+    elif how == "keyword":
+        out = outcome(lambda: rand.place(vr, nets, machine, cs, random=rr))
+    else:
+        with c02_variants.patched_random(rr):       # the default RNG is the `random` module itself
+            out = outcome(lambda: rand.place(vr, nets, machine, cs))
     picks = [list(r[0]) for k, r in rr.log if k == "sample"]
     add("rand", out, dict(base, op="rand", picks=picks))
 
@@ -571,9 +654,30 @@ def run_placers(prob):
     sa_alg.apply_same_chip_constraints = rec_same
     python_kernel._step = rec_step
     try:
-        out = outcome(lambda: sa_alg.place(vr, nets, machine, cs, effort=prob["effort"], random=rr,
-                                           on_temperature_change=on_temp, kernel=K,
-                                           kernel_kwargs={"no_warn": True}))
+        how = call.pick("sa", ["keyword", "positional", "default-random", "default-place"])
+        cb = on_temp
+        if prob["max_temps"] is None and len(prob["vr"]) <= 6 and call.pick("sa-cb", [0, 1]):
+            cb = None                               # no callback at all: the anneal runs to its own end
+            conv.append("on_temperature_change=None")
+        conv.append("sa:" + how)
+        lim = 120 if prob["max_temps"] is None else 30
+        if how == "keyword":
+            out = outcome(lambda: sa_alg.place(vr, nets, machine, cs, effort=prob["effort"], random=rr,
+                                               on_temperature_change=cb, kernel=K,
+                                               kernel_kwargs={"no_warn": True}), lim)
+        elif how == "positional":
+            out = outcome(lambda: sa_alg.place(vr, nets, machine, cs, prob["effort"], rr, cb, K, {"no_warn": True}), lim)
+        elif how == "default-random":
+            with c02_variants.patched_random(rr):
+                out = outcome(lambda: sa_alg.place(vr, nets, machine, cs, effort=prob["effort"],
+                                                   on_temperature_change=cb, kernel=K,
+                                                   kernel_kwargs={"no_warn": True}), lim)
+        else:
+            import rig.place_and_route as pr        # the default placer of the package is this function
+            entry = pr.place if pr.place.__module__ == sa_alg.__name__ and \
+                getattr(pr.place, "__code__", None) is sa_alg.place.__code__ else sa_alg.place
+            out = outcome(lambda: entry(vr, nets, machine, cs, effort=prob["effort"], random=rr,
+                                        on_temperature_change=cb, kernel=K, kernel_kwargs={"no_warn": True}), lim)
     finally:
         sa_alg.apply_same_chip_constraints = real_same
         python_kernel._step = real_step
@@ -590,7 +694,7 @@ def run_placers(prob):
         from rig.place_and_route.place.sa.c_kernel import CKernel
     except ImportError:
         CKernel = None
-    if CKernel is not None:
+    if CKernel is not None and not c02_variants.too_big_for_c(prob):
         vr, nets, machine, cs = build(prob)
         rr = RecRandom(prob["seeds"][2])
         t2 = [0]
@@ -599,8 +703,20 @@ def run_placers(prob):
             t2[0] += 1
             if t2[0] >= 4:
                 return False
-        add("sa-c", outcome(lambda: sa_alg.place(vr, nets, machine, cs, effort=prob["effort"], random=rr,
-                                                 on_temperature_change=on_temp2, kernel=CKernel)), None)
+        from rig.place_and_route.place import sa as sa_pkg
+        how = call.pick("sa-c", ["keyword", "default-kernel", "positional"])
+        if how == "default-kernel" and sa_alg.place.__defaults__[3] is not CKernel:
+            how = "keyword"
+        conv.append("sa-c:" + how)
+        if how == "keyword":
+            add("sa-c", outcome(lambda: sa_alg.place(vr, nets, machine, cs, effort=prob["effort"], random=rr,
+                                                     on_temperature_change=on_temp2, kernel=CKernel), 30), None)
+        elif how == "default-kernel":
+            add("sa-c", outcome(lambda: sa_pkg.place(vr, nets, machine, cs, effort=prob["effort"], random=rr,
+                                                     on_temperature_change=on_temp2), 30), None)
+        else:
+            add("sa-c", outcome(lambda: sa_alg.place(vr, nets, machine, cs, prob["effort"], rr, on_temp2, CKernel, {}),
+                                30), None)
     return runs
 
 
@@ -650,7 +766,7 @@ def utils_requests(prob):
         val = {"err": type(e).__name__}
     out.append(("utils.apply_same_chip", val, dict(base, op="same")))
     # every reserve constraint alone, on a copy of the machine
-    for c, cj in zip(cs, prob["cs"]):
+    for c, cj in zip(cs, base["cs"]):
         if cj["t"] != "res":
             continue
         m2 = machine.copy()
@@ -712,6 +828,8 @@ def eval_problems(ctx, probs):
             impl = r["impl"]
             case = {"problem": desc, "placer": name}
             ctx.traces += 1
+            for c in r.get("conventions", []):
+                ctx.tag("call:%s:%s" % (name, c))
             # --- property oracle on the implementation's own outcome
             if "ok" in impl:
                 ctx.tag(name + ":placed")
@@ -728,7 +846,9 @@ def eval_problems(ctx, probs):
                     nontriv = True
             else:
                 ctx.tag(name + ":" + impl["err"])
-                if impl["err"] not in DOCUMENTED:
+                if impl["err"] == "DidNotReturn":
+                    did_not_return(ctx, name, impl, case)
+                elif impl["err"] not in DOCUMENTED:
                     if not prob["ood"]:
                         ctx.violation("%s-raises-%s" % (name, impl["err"]),
                                       "%s raised %s (%s); only InsufficientResourceError and "
@@ -781,6 +901,14 @@ def eval_problems(ctx, probs):
             ctx.tag("out-of-domain")
         if prob.get("twist"):
             ctx.tag("infeasible-twist:" + prob["twist"])
+        var = prob.get("var") or {}
+        if var.get("scale", 1) != 1:
+            ctx.tag("scale:2**%d" % (var["scale"].bit_length() - 1))
+            if c02_variants.too_big_for_c(prob):
+                ctx.tag("sa-c:not-run-quantities>=2**31")
+        ctx.tag("links:" + var.get("links", "none"), "containers:" + ("varied" if var.get("containers") else "plain"))
+        if not prob["res"]:
+            ctx.tag("no-resource-types")
         ctx.tag("names:%s" % (prob.get("names") or "plain"), "res-names:%s" % (prob.get("res_names") or "rig"))
         ctx.case(desc, nontriv)
 
@@ -850,15 +978,17 @@ def gen_hetero(rng, size, ring):
 from harness import c02_orders
 from harness import c02_kernel
 from harness import c02_sessions
+from harness import c02_harden
 THEOREMS = THEOREMS + c02_orders.THEOREMS_ORDERS
 CLAIM = dict(CLAIM, text=CLAIM["text"] + " " + c02_orders.CLAIM_ORDERS + " " + c02_kernel.CLAIM_KERNEL + " " +
-             c02_sessions.CLAIM_SESSIONS + " " + c02_names.CLAIM_NAMES,
-             note=CLAIM["note"] + " " + c02_orders.NOTE_ORDERS)
+             c02_sessions.CLAIM_SESSIONS + " " + c02_names.CLAIM_NAMES + " " + c02_harden.CLAIM_HARDEN,
+             note=CLAIM["note"] + " " + c02_orders.NOTE_ORDERS + " " + c02_harden.NOTE_HARDEN)
 
 
 def run(ctx):
     ctx.extra["rule"] = RULE + " " + c02_orders.RULE_ORDERS + " " + c02_kernel.RULE_KERNEL + " " + \
-        c02_sessions.RULE_SESSIONS + " " + c02_names.RULE_NAMES
+        c02_sessions.RULE_SESSIONS + " " + c02_names.RULE_NAMES + " " + c02_variants.RULE_VARIANTS + " " + \
+        c02_harden.RULE_HARDEN
     hilbert_checks(ctx)
     c02_orders.run_orders(ctx)
     ctx.extra["trusted_base"] = ["rig_c_sa (compiled annealing kernel outside /repo): opaque, checked only by the Feasible oracle",
@@ -870,7 +1000,7 @@ def run(ctx):
         "custom vertex orders are permutations of the vertices (documented precondition of sequential.place)",
         "completeness clause read as: one resource r0, every vertex needs 0 or 1 unit of r0 and nothing else, at least one working chip",
         "termination of the annealing temperature schedule is bounded by the harness through on_temperature_change"]
-    n = ctx.scale(1500, 40000)
+    n = ctx.scale(1500, 30000)
     if ctx.extended:
         n *= 4
     rng = ctx.rng
@@ -894,6 +1024,7 @@ def run(ctx):
         eval_problems(ctx, [prob])
     c02_kernel.run_kernel(ctx)
     c02_sessions.run_sessions(ctx)
+    c02_harden.run_harden(ctx)
 
 
 def replay(ctx, payload):
@@ -903,6 +1034,8 @@ def replay(ctx, payload):
         return c02_kernel.replay_kernel(ctx, payload)
     if "orders" in case or "orders-fixed" in case:
         return c02_orders.replay_orders(ctx, payload)
+    if "harden" in case:
+        return c02_harden.replay_harden(ctx, payload)
     if "session" in case or "machine_sequence" in case:
         return c02_sessions.replay_sessions(ctx, payload)
     eval_problems(ctx, [case["problem"]])
